@@ -233,7 +233,8 @@ def run_shard(desc, ctx):
             if rng.random() < 0.5:
                 opts['stylesheet.floatUnit'] = rng.choice(['em', 'rem', '%', ''])
             if rng.random() < 0.3:
-                opts['stylesheet.unitAliases'] = rng.choice([{'x': 'vw', 'e': 'em'}, {'p': 'pc', 'r': 'rad', 'x': 'ex', 'e': 'em'}, {}])
+                opts['stylesheet.unitAliases'] = rng.choice([{'x': 'vw', 'e': 'em'}, {'p': 'pc', 'r': 'rad', 'x': 'ex', 'e': 'em'}, {},
+                                                            {'x': '', 'e': 'em', 'p': '%'}, {'p': '', 'r': '', 'x': 'ex'}])       # (an alias may stand for NO unit)
             if rng.random() < 0.5:
                 opts['stylesheet.shortHex'] = rng.random() < 0.5
             optpool.append(opts)
